@@ -30,6 +30,8 @@ def classify_exception(e):
     tname = type(e).__name__
     msg = str(e)
     expected = False
+    if tname == "RoundBudgetExceeded":
+        return "RoundBudgetExceeded@harness:" + msg[:80], True
     if "sklearn" in inner.filename and tname in ("ValueError",):
         expected = True           # mixture model refuses the data (too few windows, degenerate components)
     elif tname == "AssertionError" and "at least one point" in msg:
@@ -78,6 +80,10 @@ def run_case(case):
     run.lam_before = np.array(run.lam, copy=True) if isinstance(run.lam, np.ndarray) else run.lam
     if case.get("init"):
         PLAN["init_labels"] = wd.make_init_labels(case["init"])
+    PLAN["round_budget"] = int(case["limit"])
+    run.scripted = bool(case.get("label_script"))
+    if run.scripted:
+        PLAN["label_script"] = wd.make_label_script(case["label_script"], n_points, K)
     for k, v in (case.get("task_plan") or {}).items():
         PLAN["task"][int(k)] = v
     if case.get("mp"):
@@ -205,6 +211,7 @@ def evaluate(run, want=None):
         if seen.shape != X.shape or not np.array_equal(stack.bits(seen), stack.bits(X)):
             I.v("C07" if joint and nseries > 1 else "C10", "the stacked array handed to the main loop differs from the per-series window stacking of the input")
             I.v("C10", "stacked array differs from the reference stacking")
+            return I          # every other oracle is phrased over the reference stacking
         I.c("stacked_arrays_checked")
 
     # ---- argument pass-through at the first boundary
@@ -231,6 +238,11 @@ def evaluate(run, want=None):
 
     # ---- C09 trace grammar (complete runs only: an aborted run has a truncated trace)
     complete = res is not None
+    if run.exc is not None and type(run.exc).__name__ == "RoundBudgetExceeded":
+        I.v("C09", "the run went beyond its iteration limit: %s (aborted by the harness after %d rounds)" % (run.exc, R))
+    scripted = bool(getattr(run, "scripted", False))
+    if scripted:
+        I.c("scripted_runs")
     exp = []
     for i in range(R):
         exp += (["repop"] if i > 0 else []) + ["stats", "opt", "label"]
@@ -467,7 +479,7 @@ def evaluate(run, want=None):
                 I.c("tables_skipped_not_pd_or_illconditioned")
             # C01 on the call itself
             C = np.asarray(step["table"], dtype=np.float64)
-            if np.all(np.isfinite(C)):
+            if np.all(np.isfinite(C)) and not scripted:
                 b = step["beta"]
                 labels = step["labels"]
                 okl = len(labels) == C.shape[0] and all(isinstance(l, numbers.Integral) and 0 <= l < C.shape[1] for l in labels)
@@ -649,7 +661,9 @@ def evaluate(run, want=None):
     masked_seen = beta_seen is not None and np.array_equal(beta_seen[:Tp - 1], within[:Tp - 1])
     unmasked_seen = beta_seen is not None and np.array_equal(beta_seen[:Tp - 1], beta_vec[:Tp - 1])
     mask_matters = nseries > 1 and any(beta_vec[i] != 0 for i in boundary_idx)
-    if abs(got - expect) <= cost_tol:
+    if scripted:
+        pass
+    elif abs(got - expect) <= cost_tol:
         I.c("cost_equation_held")
     elif joint and mask_matters and unmasked_seen and not masked_seen and abs(got - (expect + cross)) <= cost_tol and cross > 0:
         I.k("C06", "joint-boundary-priced", "cost %r = within-series cost %r + %r for %d priced series boundaries" % (
@@ -658,7 +672,7 @@ def evaluate(run, want=None):
         I.v("C06", "label_assignment_cost %r != -sum(ll) + within-series switching cost = %r (diff %.6g, tol %.3g)" % (got, expect, got - expect, cost_tol))
 
     # ---- C07 joint pricing
-    if joint:
+    if joint and not scripted:
         if beta_seen is None:
             I.c("joint_beta_not_observed")
         elif not mask_matters:
@@ -693,7 +707,7 @@ def evaluate(run, want=None):
                 I.v("C07", "switching cost reaching the labelling step is neither the caller's nor the caller's with zeros on the %d boundary pairs" % len(boundary_idx))
 
     # ---- C09: returned labelling optimal for the returned model
-    if beta_seen is not None:
+    if beta_seen is not None and not scripted:
         Cfin = -ref_tab
         tolv = lab.cost_tolerance(Cfin, beta_seen) + 2 * float(np.sum(np.max(bnd_tab, axis=1)))
         opt, _ = lab.forward_viterbi(Cfin, beta_seen)
